@@ -493,6 +493,13 @@ impl Check for C05 {
                 max_bytes: 24,
                 exhaustive: false,
             },
+            // many bindings in scope at once (20-60 operations, mostly lets), then nested scopes
+            PhaseSpec {
+                name: "wide-skeletons",
+                cases: tier.pick(10_000, 150_000),
+                max_bytes: 72,
+                exhaustive: false,
+            },
             PhaseSpec {
                 name: "programs",
                 cases: tier.pick(20_000, 300_000),
@@ -503,9 +510,19 @@ impl Check for C05 {
     }
     fn make(&self, phase: &str, index: u64, bytes: &[u8], ctx: &mut Ctx) -> Case {
         match phase {
-            "skeletons" | "long-skeletons" => {
+            "skeletons" | "long-skeletons" | "wide-skeletons" => {
                 let ops = if phase == "skeletons" {
                     skeleton_ops(index)
+                } else if phase == "wide-skeletons" {
+                    let mut d = Dec::new(bytes);
+                    let n = 20 + d.below(41);
+                    (0..n)
+                        .map(|_| {
+                            // binds and uses dominate; scopes open more often than they close
+                            let k = [0u64, 1, 0, 1, 2, 3, 0, 1, 4, 5, 6, 7, 2, 3, 8, 0][d.below(16)];
+                            op_of(k)
+                        })
+                        .collect()
                 } else {
                     let mut d = Dec::new(bytes);
                     let n = 6 + d.below(10);
